@@ -191,7 +191,14 @@ impl Response {
 
         if headers
             .get(&HeaderType::TransferEncoding)
-            .and_then(|te| if te == "chunked" { Some(()) } else { None })
+            // Transfer-coding names are case-insensitive (RFC 7230, section 4)
+            .and_then(|te| {
+                if te.trim().eq_ignore_ascii_case("chunked") {
+                    Some(())
+                } else {
+                    None
+                }
+            })
             .is_some()
         {
             let mut body: Vec<u8> = Vec::new();
